@@ -208,8 +208,34 @@ func (w *World) Failf(format string, args ...interface{}) {
 	msg := fmt.Sprintf(format, args...)
 	w.failed = true
 	failedOnce.Store(true)
-	w.T.Fatalf("VERIF-VIOLATION property=%s: %s\n--- script ---\n%s\n--- event log (tail) ---\n%s",
-		w.Prop, msg, strings.Join(w.Script, "\n"), w.DumpTail(120))
+	stacks := ""
+	if strings.Contains(msg, "did not happen") || strings.Contains(msg, "does not hold") || strings.Contains(msg, "not returned") {
+		// a call which does not come back: where the client's goroutines stand
+		stacks = "\n--- goroutines inside the client ---\n" + clientStacks()
+	}
+	w.T.Fatalf("VERIF-VIOLATION property=%s: %s\n--- script ---\n%s\n--- event log (tail) ---\n%s%s",
+		w.Prop, msg, strings.Join(w.Script, "\n"), w.DumpTail(120), stacks)
+}
+
+// clientStacks renders the stacks of the goroutines which are inside the
+// library (diagnostics for hangs; no part of any verdict).
+func clientStacks() string {
+	buf := make([]byte, 1<<20)
+	buf = buf[:runtime.Stack(buf, true)]
+	var b strings.Builder
+	for _, g := range strings.Split(string(buf), "\n\n") {
+		if strings.Contains(g, "pascaldekloe/mqtt.") {
+			if len(g) > 1500 {
+				g = g[:1500] + " …"
+			}
+			b.WriteString(g)
+			b.WriteString("\n\n")
+		}
+		if b.Len() > 12000 {
+			break
+		}
+	}
+	return b.String()
 }
 
 // DumpTail renders the last n events.
